@@ -98,3 +98,36 @@ func Harness_C05_on_demand_equivalence() {
 	verifAssert("flow-through-callee-body-reported-iff-result-derives-from-the-tainted-parameter", eager == (operand == 0))
 	verifAssert("summarize-on-demand-does-not-change-the-verdict", eager == lazy)
 }
+
+// Harness_C01_flow_through_global: a flow from a source written into a package-level variable in one function to a
+// sink that reads the variable in another function, end to end (real intra-procedural analysis of all three
+// functions, real global read/write registration, real forward Visitor). Writes to a *part* of the variable
+// (a struct field, an array element) are the region of known finding KF-C01-partial-global-write.
+func Harness_C01_flow_through_global() {
+	shape := verifPick("shape", 0, 2)
+	w := df.VerifNewGlobalWorld(shape)
+	verifAssert("world-built", w.Err == nil && w.Source != nil && w.Sink != nil)
+	if w.Err != nil || w.Source == nil || w.Sink == nil {
+		return
+	}
+	spec := &config.TaintSpec{
+		Sources: []config.CodeIdentifier{config.NewCodeIdentifier(config.CodeIdentifier{Package: "example.com/p", Method: "^source$"})},
+		Sinks:   []config.CodeIdentifier{config.NewCodeIdentifier(config.CodeIdentifier{Package: "example.com/p", Method: "^sink$"})},
+	}
+	v := NewVisitor(spec)
+	verifTerminatesWithin("forward-visit-terminates", 6000000)
+	v.Visit(w.State, df.NodeWithTrace{Node: w.Source})
+	verifTerminated()
+	verifReach("visited")
+	reported := false
+	for sinkNode, sources := range v.taints.Sinks {
+		if sinkNode.Instr == w.Sink.CallSite() {
+			for src := range sources {
+				if src.Instr == w.Source.CallSite() {
+					reported = true
+				}
+			}
+		}
+	}
+	verifAssertKnown("flow-through-a-global-is-reported", "KF-C01-partial-global-write", shape != 0, reported)
+}
